@@ -5,8 +5,6 @@
 //@pin file=lrpar/src/lib/cpctplus.rs fn=collect_repairs sha=73788e2b2b7029c3
 //@pin file=lrpar/src/lib/cpctplus.rs fn=traverse sha=0d5160c70276965f
 //@pin file=lrpar/src/lib/cpctplus.rs fn=simplify_repairs sha=98007886e15ef655
-//@pin file=lrpar/src/lib/cpctplus.rs fn=repair_to_parse_repair sha=6c9390a7dd8c7983
-//@pin file=lrpar/src/lib/cpctplus.rs fn=ends_with_parse_at_least_shifts sha=fb18eba532cb6186
 //@pin file=lrpar/src/lib/cpctplus.rs fn=recoverer sha=be65bf0498c91a62
 //@pin file=lrpar/src/lib/parser.rs fn=lr_cactus sha=1d44d444a2bfd9dc
 //@pin file=lrpar/src/lib/parser.rs fn=next_lexeme sha=8aa35f57798e4927
